@@ -515,6 +515,12 @@ func runC18(r *core.Run) {
 		fsCase{Root: fsSpec{Kind: "D", NGen: 1111, NameLen: 200}},
 		fsCase{Root: fsSpec{Kind: "D", NGen: 1111, NameLen: 200, Children: []fsSpec{{Kind: "D", Children: []fsSpec{{Kind: "F"}, {Kind: "Lr"}}}, {Kind: "M"}}}},
 		fsCase{Root: fsSpec{Kind: "M"}},
+		// entry counts at and around the batch sizes a directory listing might be
+		// read in (512, 1024, 2048), at the root and nested
+		fsCase{Root: fsSpec{Kind: "D", NGen: 511, NameLen: 6}}, fsCase{Root: fsSpec{Kind: "D", NGen: 512, NameLen: 6}},
+		fsCase{Root: fsSpec{Kind: "D", NGen: 1023, NameLen: 6}}, fsCase{Root: fsSpec{Kind: "D", NGen: 1024, NameLen: 6}}, fsCase{Root: fsSpec{Kind: "D", NGen: 1025, NameLen: 6}},
+		fsCase{Root: fsSpec{Kind: "D", NGen: 2048, NameLen: 6}}, fsCase{Root: fsSpec{Kind: "D", NGen: 4096, NameLen: 6}},
+		fsCase{Root: fsSpec{Kind: "D", Children: []fsSpec{{Kind: "F"}, {Kind: "D", NGen: 1024, NameLen: 6}}}},
 		// names at the 255-byte limit, in a plain and in an auto-sharded directory
 		fsCase{Root: fsSpec{Kind: "D", LongNames: true, Children: []fsSpec{{Kind: "F"}, {Kind: "E"}, {Kind: "F"}, {Kind: "Lr"}}}},
 		fsCase{Root: fsSpec{Kind: "D", NGen: 1030, NameLen: 255, LongNames: true, Children: []fsSpec{{Kind: "F"}, {Kind: "F"}, {Kind: "E"}, {Kind: "F"}}}},
